@@ -17,6 +17,11 @@ class HandlerBoom(Exception):
     """Exception injected into application handlers."""
 
 
+class HandlerBoomType(TypeError):
+    """Injected handler failure that is a TypeError raised by the handler's
+    own body (e.g. 'bye ' + None)."""
+
+
 class HandlerBoomBase(BaseException):
     """Injected handler failure that is not an Exception subclass (what
     eventlet.Timeout, gevent.Timeout or greenlet.GreenletExit are)."""
@@ -111,7 +116,10 @@ class SimBase:
         #     reason is then unobservable and logged as '?legacy'
         # 'suspend': {'message'|'disconnect': dt} - the handler blocks /
         #     awaits for dt of virtual time after it has been entered
+        # 'boom_type': 'typeerror' - the handler body fails with a TypeError
+        #     (the exception type the legacy-signature retry looks for)
         self.boom_exc = HandlerBoomBase if self.cfg.get('boom_base') \
+            else HandlerBoomType if self.cfg.get('boom_type') == 'typeerror' \
             else HandlerBoom
         self.legacy_disconnect = bool(self.cfg.get('legacy_disconnect'))
         self.suspend = dict(self.cfg.get('suspend', {}))
@@ -141,6 +149,8 @@ class SimBase:
             out = self.connect_script[idx]
             if out == 'raise':
                 raise HandlerBoom('connect')
+            if out == 'raise-type':
+                raise HandlerBoomType('connect')
             return out
         return None
 
@@ -160,7 +170,9 @@ class SimBase:
         i = self.nevent
         self.nevent += 1
         self.events.append({'clk': self.tick(), 't': self.now,
-                            'ev': 'disconnect', 'sid': sid, 'reason': reason})
+                            'ev': 'disconnect', 'sid': sid, 'reason': reason,
+                            'true_reason': getattr(self, 'true_reason',
+                                                   {}).get(sid, reason)})
         if self.on_event:
             self.on_event('disconnect', sid, reason)
         return i
